@@ -146,5 +146,14 @@ def gen_router_rx():
     write_if_changed("RouterRx.lean", body)
 
 
+@gen_lean.register(props=["C06"])
+def gen_locks_for_c06():
+    """`Props.C06.refresh_table_is_one_section` (two receive threads, round 5) is discharged over `Generated/Locks.lean`: the
+    lock-section shape of `LocationTable.refresh_table`, regenerated by C15's ast pass (harness/gen_locks.py) - run it for
+    C06 too so that a source change of that shape re-opens C06's obligation."""
+    import gen_locks
+    gen_locks.gen_locks()
+
+
 if __name__ == "__main__":
     print(facts())
